@@ -22,3 +22,10 @@ Proof. vm_compute. auto. Qed.
 (* the copy loops add whole batches: the threshold is positive, so every counter.Add argument is >= 0 *)
 Lemma batch_threshold_positive : (0 < BatchUpdateThreshold)%N.
 Proof. vm_compute. reflexivity. Qed.
+
+(* StreamProcessor.onClose has one of the two shapes the model transcribes: it keeps ps.reader / ps.writer (repaired,
+   pstep true) or sets both to nil (pinned, pstep false); what the syntax tree says and what a real processor does agree *)
+Lemma stream_onclose_shape_known :
+  StreamOnCloseFound = true /\ StreamOnCloseAssignsNilReader = StreamCloseNilsReader /\
+  StreamOnCloseAssignsNilWriter = StreamCloseNilsWriter /\ StreamCloseNilsReader = StreamCloseNilsWriter.
+Proof. vm_compute. auto. Qed.
